@@ -60,6 +60,10 @@ fn decode(tape: &[u32]) -> Case {
             dims[0] = t.usize(1, 3);
         }
     }
+    // one case in twelve is a matrix with both extents in 17..70 (blocked two-dimensional loops: corners and strips)
+    if t.chance(1, 12) {
+        dims = vec![t.usize(17, 70), t.usize(17, 70)];
+    }
     let nested = if matches!(op, Op::Add | Op::DivScalar | Op::Mismatch) { t.pick(3) as u8 } else { 0 };
     let members = t.usize(1, 3);
     let class_a = t.pick(5) as u32;
@@ -428,7 +432,7 @@ impl Prop for C15 {
         t.pick(2_000_000, 200_000_000)
     }
     fn rule(&self) -> String {
-        "tape-decoded (operation in {add, sub, mul, scaled Hadamard, hadamard3d, scalar division, mean over k=1..5, outer product, matrix-vector product, transpose, clamp, shape-mismatch refusal} x rank 1..4 (nested / optional-nested lists for add and scalar division) x extents 1..4 per axis (1/6 of the cases: a wide axis of 20..300) x content classes (dyadic, O(1), mixed magnitudes 2^-20..2^20, signed zeros + subnormals, 1e18) x scalars). Oracle: scalar IEEE reference per element (bitwise for add/sub/mul/div/outer/transpose/clamp, 2 ulp of the exact product for Hadamard, summation bound for mean and dot), shape field unchanged and consistent with the data, mismatched operands (other extent / other rank / permuted extents / nested list with one differing member) must panic. Non-trivial: rank >= 2 with >= 2 axes > 1. Distinct = (operation, rank, extents, nesting, mismatch kind, k).".into()
+        "tape-decoded (operation in {add, sub, mul, scaled Hadamard, hadamard3d, scalar division, mean over k=1..5, outer product, matrix-vector product, transpose, clamp, shape-mismatch refusal} x rank 1..4 (nested / optional-nested lists for add and scalar division) x extents 1..4 per axis (1/6 of the cases: a wide axis of 20..300; 1/12: a matrix with both extents in 17..70) x content classes (dyadic, O(1), mixed magnitudes 2^-20..2^20, signed zeros + subnormals, 1e18) x scalars). Oracle: scalar IEEE reference per element (bitwise for add/sub/mul/div/outer/transpose/clamp, 2 ulp of the exact product for Hadamard, summation bound for mean and dot), shape field unchanged and consistent with the data, mismatched operands (other extent / other rank / permuted extents / nested list with one differing member) must panic. Non-trivial: rank >= 2 with >= 2 axes > 1. Distinct = (operation, rank, extents, nesting, mismatch kind, k).".into()
     }
     fn run_case(&self, tape: &[u32], ev: &mut CaseEv) -> CheckResult {
         check(&decode(tape), ev)
